@@ -2,7 +2,10 @@
 (* Exhaustive generator for C01 / C12: the product                          *)
 (*   right configuration of the room x author of the row x caller x         *)
 (*   operation shape (update, move, delete, add / remove a reference,       *)
-(*   remove an absent reference)                                            *)
+(*   remove an absent reference) x a change of one of the two room          *)
+(*   definitions between the last write of the row and the operation        *)
+(*   (right revoked / granted, caller disabled, in the room the row is in   *)
+(*   or in the room it would enter)                                         *)
 (* one scenario per initial state.                                          *)
 EXTENDS Naturals, Sequences, TLC, Json
 VARIABLES hist
@@ -24,17 +27,30 @@ Op(shape, c) ==
       [] shape = "ref" -> <<[op |-> "ref", p |-> p, row |-> "x1", to |-> "x2", ent |-> "A", tent |-> "A"]>>
       [] shape = "unref_absent" -> <<[op |-> "unref", p |-> p, row |-> "x1", to |-> "x2", ent |-> "A", tent |-> "A"]>>
       [] shape = "unref" -> <<[op |-> "unref", p |-> p, row |-> "x1", to |-> "x2", ent |-> "A", tent |-> "A"]>>
-Scenario(r1, r2, author, caller, shape, refby) ==
+\* what the admin changes after the rows were written and before the operation: the operation is decided by the definition of that moment
+Changes == {"none", "R1 revoke", "R1 grant", "R1 disable", "R2 revoke", "R2 grant", "R2 disable"}
+Upd(room, what, user, enabled, self, all) == [op |-> "roomupd", p |-> "p1", room |-> room, g |-> "g1", what |-> what, user |-> user, enabled |-> enabled,
+                                              ent |-> "A", self |-> self, all |-> all]
+ChangeOps(ch, caller) ==
+    IF ch = "none" THEN <<>>
+    ELSE LET room == SubSeq(ch, 1, 2)
+             kind == SubSeq(ch, 4, Len(ch))
+         IN << (CASE kind = "revoke" -> Upd(room, "right", caller, TRUE, FALSE, FALSE)
+                  [] kind = "grant" -> Upd(room, "right", caller, TRUE, TRUE, TRUE)
+                  [] kind = "disable" -> Upd(room, "user", caller, FALSE, TRUE, FALSE)),
+               [op |-> "ship", p |-> "p2", q |-> "p1"], [op |-> "ship", p |-> "p3", q |-> "p1"], [op |-> "day"] >>
+Scenario(r1, r2, author, caller, shape, refby, ch) ==
     << Room("R1", r1, <<"u2", "u3">>), Room("R2", r2, <<"u2", "u3">>),
        [op |-> "put", p |-> PeerOf(author), row |-> "x1", ent |-> "A", room |-> "R1"],
        [op |-> "put", p |-> PeerOf(author), row |-> "x2", ent |-> "A", room |-> "R1"],
        [op |-> "ship", p |-> "p1", q |-> PeerOf(author)], [op |-> "ship", p |-> "p2", q |-> "p1"], [op |-> "ship", p |-> "p3", q |-> "p1"] >>
     \o (IF shape = "unref" THEN <<[op |-> "ref", p |-> PeerOf(refby), row |-> "x1", to |-> "x2", ent |-> "A", tent |-> "A"],
                                   [op |-> "ship", p |-> "p1", q |-> PeerOf(refby)], [op |-> "ship", p |-> "p2", q |-> "p1"], [op |-> "ship", p |-> "p3", q |-> "p1"]>> ELSE <<>>)
-    \o <<[op |-> "day"]>> \o Op(shape, caller)
-Init == \E r1 \in RightSets, r2 \in Dest, author \in {"u1", "u2"}, caller \in {"u2", "u3"}, shape \in Shapes, refby \in {"u1", "u2"} :
+    \o <<[op |-> "day"]>> \o ChangeOps(ch, caller) \o Op(shape, caller)
+Init == \E r1 \in RightSets, r2 \in Dest, author \in {"u1", "u2"}, caller \in {"u2", "u3"}, shape \in Shapes, refby \in {"u1", "u2"}, ch \in Changes :
           /\ (shape # "unref" => refby = "u1")
-          /\ hist = Scenario(r1, r2, author, caller, shape, IF shape = "unref" THEN refby ELSE "u1")
+          /\ (SubSeq(ch, 1, 2) = "R2" => shape = "move")
+          /\ hist = Scenario(r1, r2, author, caller, shape, IF shape = "unref" THEN refby ELSE "u1", ch)
 Next == UNCHANGED hist
 Spec == Init /\ [][Next]_hist
 Emit == PrintT(<<"SCN", ToJson(hist)>>)
